@@ -663,6 +663,19 @@ def structured_edges(rng, names):
     return edges
 
 
+def blank_inner(rng, t, v):
+    """v with ONE non-final element of one top-level List[str] field made blank (None if there is no such place):
+    a blank item in the middle of a list is data like any other, in the one-cell and in the spread layout"""
+    places = [n for n, ft, d in t[2] if R.kind(ft) == "list" and R.kind(ft[1]) == "str" and isinstance(v.get(n), list) and len(v[n]) >= 2]
+    if not places:
+        return None
+    n = rng.choice(places)
+    w = dict(v)
+    w[n] = list(v[n])
+    w[n][rng.randrange(len(w[n]) - 1)] = ""
+    return w
+
+
 def gen_cases(ck, per_schema, flow_n, n_random, n_perm):
     rng = ck.rng
     cases = []
@@ -681,6 +694,11 @@ def gen_cases(ck, per_schema, flow_n, n_random, n_perm):
                 continue
             got += 1
             cases.append((si, v, rng.getrandbits(48), n_random, n_perm))
+            if rng.random() < 0.25:
+                w = blank_inner(rng, t, v)
+                if w is not None:
+                    ck.count("values.blank-inner-list-element")
+                    cases.append((si, w, rng.getrandbits(48), n_random, n_perm))
     t, sj, fi = FLOW["t"], FLOW["sj"], FLOW["idx"]
     got = 0
     while got < flow_n:
